@@ -330,7 +330,9 @@ def run_e2e(n, gi):
 
 TWINS = ['a.b', 'a_b', 'ab', 'x[y]', 'p+q', 'a|b', 'a.', 'a$',
          # names that differ in letter case only
-         'aB', 'Ab', 'AB']
+         'aB', 'Ab', 'AB',
+         # names that a "natural" / normalising sort key would not tell apart
+         's1', 's01', 's001', 'a-b']
 
 
 def run_twins(pair, mode):
